@@ -254,7 +254,9 @@ struct Dumper {
       o["op"] = UnaryOperator::getOpcodeStr(UO->getOpcode()).str();
       if (UO->isPostfix()) o["postfix"] = true;
     } else if (auto *IL = dyn_cast<IntegerLiteral>(S)) {
-      o["value"] = (int64_t)IL->getValue().getLimitedValue();
+      o["value"] = IL->getType()->isSignedIntegerType()
+                       ? (int64_t)IL->getValue().getSExtValue()
+                       : (int64_t)IL->getValue().getLimitedValue();
     } else if (auto *FL = dyn_cast<FloatingLiteral>(S)) {
       llvm::SmallString<32> str;
       FL->getValue().toString(str, 0, 0);
